@@ -391,7 +391,7 @@ impl Program {
                     name: loop_count_reference.name.clone(),
                     size: Vector {
                         data_type: ScalarType::Integer,
-                        length: 1,
+                        length: loop_count_reference.index + 1,
                     },
                     sharing: None,
                 }),
@@ -408,10 +408,7 @@ impl Program {
             .chain(vec![
                 Instruction::Arithmetic(Arithmetic {
                     operator: ArithmeticOperator::Subtract,
-                    destination: MemoryReference {
-                        name: loop_count_reference.name.clone(),
-                        index: 0,
-                    },
+                    destination: loop_count_reference.clone(),
                     source: ArithmeticOperand::LiteralInteger(1),
                 }),
                 Instruction::JumpWhen(JumpWhen {
